@@ -11,7 +11,11 @@ never the not-passed marker.  Families: random trees, tuple items of structurall
 classes, compositions of classes, parent/child classes used in both orders, valid defaults, classes whose
 `patternProperties` also match declared property names (at the top and nested), data that already holds built model
 instances (of the position's class, of a subclass, of an equally shaped class under another name or rebuilt under the
-same name, of a class with one more property) at class-typed positions.  The oracle is applied to EVERY model instance
+same name, of a class with one more property) at class-typed positions; a building schema (class, array / tuple / union of one,
+anonymous object) under a chain of pass-through wrappers (negations - single, double, triple -, one- and two-member compositions,
+arrays) with the accepted non-empty values carried through; elements restricted by value keywords (const / enum / bounds, un-typed
+and typed) fed every literal in both JSON spellings of a number (2 and 2.0); for every family, variants of the values with numbers
+respelled.  The oracle is applied to EVERY model instance
 reachable from the built model (attributes, list items, additional / pattern members), not only to the outermost one."""
 import ast
 import copy
@@ -39,6 +43,9 @@ ASSUMPTIONS = ["an optional declared property with a default whose JSON name is 
                "defaults are valid for their schema (the property's own restriction): cases with an invalid default are skipped and counted",
                "bool is read as a subtype of int (as type checkers do); int is accepted where float is announced (stated in the property)"]
 N_TREES = {"quick": 580, "thorough": 23200}
+# the families added later run after those, on the same rng, so that a seed still explores what it explored before in the earlier ones
+N_LATER = {"quick": 84, "thorough": 3360}
+LATER = ["wrapped-core", "value-restricted"]
 
 
 class Bad(Exception):
@@ -411,6 +418,15 @@ class Run:
         return self.listed
 
 
+def has_key_deep(v, key):
+    """does some object inside the (symbolic) value have a member spelled `key`"""
+    if isinstance(v, dict):
+        return key in v or any(has_key_deep(x, key) for x in v.values())
+    if isinstance(v, (list, tuple)):
+        return any(has_key_deep(x, key) for x in v)
+    return False
+
+
 def check_instance(run, inst, steps, v, seen, depth=0):
     """one model instance: every property's annotation vs the attribute; then every model instance below it.  True = failure recorded."""
     out, stats = run.out, run.stats
@@ -446,7 +462,14 @@ def check_instance(run, inst, steps, v, seen, depth=0):
             return True
         bare = not text.startswith("Maybe[")
         if not ok and not (bare and isinstance(attr, NotPassed)):
-            if finding is not None and run.class_dump is not None:
+            if finding is None and (getattr(prop, "source", None) or name) != name and has_key_deep(v, name):
+                # the C19 face of C04-/C05-key-collision: an input member spelled like the Python attribute name of a declared
+                # property whose JSON name is different overwrites that attribute -- only where the model accepts the value too
+                res = run.model_accepts(v)
+                if res is not None and res.get("r") == "ok":
+                    finding = "C19-key-collision"
+                    stats["key-collision-overwrites-annotated-attribute"] = stats.get("key-collision-overwrites-annotated-attribute", 0) + 1
+            if finding is not None and finding != "C19-key-collision" and run.class_dump is not None:
                 # ... and only where the model also accepts this very value: a value the unchanged code refuses is a different failure
                 res = run.model_accepts(v)
                 if res is None or res.get("r") != "ok":
@@ -747,6 +770,156 @@ def model_positions_family(rng):
     return holder, docs, "order"
 
 
+def wrapped_core_family(rng):
+    """Pass-through wrappers around a schema that BUILDS something.  The core is a schema whose construction changes the runtime
+    type of the value (a model class, arrays / tuples / unions of one, an anonymous object) or a scalar control; it sits under a
+    chain of 1-3 wrappers that hand a value on to it - negation (which only tests its operand and keeps the raw value; an even
+    number of negations accepts what the core accepts), one- and two-member anyOf / oneOf / allOf, an array.  The values are the
+    core's accepted, NON-EMPTY values carried through the wrappers, beside values the core refuses (what an odd number of negations
+    accepts).  Whatever the wrappers announce, the attribute must belong to it."""
+    leaf = lambda c, **kw: {"cls": c, "kw": {k: core.enc_val(x) for k, x in kw.items()}}
+    inner = _cls("Inner", [("n", True, leaf("Integer")), ("tag", False, leaf("String"))])
+    goods_inner = [{"n": 1}, {"n": 2, "tag": "t"}]
+    k = rng.randrange(9)
+    if k <= 1:
+        sub, goods, kind = inner, goods_inner, "class"
+    elif k == 2:
+        sub, goods, kind = {"cls": "Array", "kw": {"itemsKind": "single"}, "items": [inner]}, [[goods_inner[0]], list(goods_inner)], "array-of-class"
+    elif k == 3:
+        sub, goods, kind = {"cls": "Array", "kw": {"itemsKind": "tuple"}, "items": [inner, leaf("String")]}, [[goods_inner[0], "x"], [goods_inner[1]]], "tuple-of-class"
+    elif k == 4:
+        sub = {"cls": rng.choice(["AnyOf", "OneOf"]), "kw": {}, "elements": [inner, leaf("Null")]}
+        goods, kind = goods_inner + [None], "union-of-class"
+    elif k == 5:
+        sub = {"cls": "Array", "kw": {"itemsKind": "single"}, "items": [{"cls": "Array", "kw": {"itemsKind": "single"}, "items": [inner]}]}
+        goods, kind = [[[goods_inner[0]]], [[goods_inner[1]], [goods_inner[0], goods_inner[1]]]], "array-of-array-of-class"
+    elif k == 6:
+        sub = {"cls": "Element", "kw": {"hasProps": True}, "props": [[{"name": "n", "source": "n", "required": True}, leaf("Integer")]]}
+        goods, kind = [{"n": 1}, {"n": 2, "z": 1}], "anonymous-object"
+    elif k == 7:
+        sub = {"cls": "Element", "kw": {"hasProps": True}, "props": [[{"name": "inner", "source": "inner"}, inner]]}
+        goods, kind = [{"inner": goods_inner[0]}, {"inner": goods_inner[1], "z": 1}], "class-under-anonymous-object"
+    else:
+        c = rng.choice(["String", "Integer", "Number", "Boolean"])
+        sub, goods, kind = leaf(c), {"String": ["s", "tt"], "Integer": [3, 0], "Number": [2.5, 3], "Boolean": [True, False]}[c], "scalar"
+    junk = [3, "s", None, {}, [], {"n": "x"}, [3]]
+    chain = []
+    for _ in range(rng.choice([1, 2, 2, 2, 3, 3])):
+        w = rng.choice(["Not", "Not", "Not", "Not", "AnyOf1", "OneOf1", "AllOf1", "AnyOf-or-null", "AllOf-then-untyped", "Array"])
+        chain.append(w)
+        if w == "Not":
+            sub = {"cls": "Not", "kw": {}, "elements": [sub]}
+        elif w in ("AnyOf1", "OneOf1", "AllOf1"):
+            sub = {"cls": w[:-1], "kw": {}, "elements": [sub]}
+        elif w == "AnyOf-or-null":
+            sub = {"cls": "AnyOf", "kw": {}, "elements": [sub, leaf("Null")]}
+        elif w == "AllOf-then-untyped":
+            sub = {"cls": "AllOf", "kw": {}, "elements": [sub, leaf("Element")]}
+        else:
+            sub = {"cls": "Array", "kw": {"itemsKind": "single"}, "items": [sub]}
+            goods = [[g] for g in goods] + [list(goods)]
+            junk = [[j] for j in junk[:4]] + [[], 3, "s"]
+    negs, run_len, longest = chain.count("Not"), 0, 0
+    for w in chain:
+        run_len = run_len + 1 if w == "Not" else 0
+        longest = max(longest, run_len)
+    return sub, goods + goods + rng.sample(junk, min(len(junk), 4)), {"core": kind, "negations": negs, "adjacent-negations": longest, "wrappers": len(chain)}
+
+
+def value_restricted_family(rng):
+    """Elements whose admitted values are pinned down by VALUE keywords rather than by a type: un-typed (and, as controls, typed)
+    elements with `const`, `enum`, numeric bounds / `multipleOf`, alone, as array items or as a union member.  The validators
+    compare by JSON equality, where 2 and 2.0 are the same number (and true is not 1): the values are the literals themselves and
+    every literal in its other spelling (an integer as a real, an integral real as an integer, 0/1 for false/true and back)."""
+    ints, reals, strs = [0, 1, 2, 3, -1, 10], [2.5, 0.5, 1.0, 2.0, -0.0], ["a", "b", "low", ""]
+
+    def lit():
+        k = rng.random()
+        if k < 0.5:
+            return rng.choice(ints)
+        if k < 0.65:
+            return rng.choice(reals)
+        if k < 0.85:
+            return rng.choice(strs)
+        return rng.choice([None, True, False])
+    shape = rng.choice(["ints", "ints", "ints", "mixed", "mixed", "strings"])
+    n = rng.randint(1, 3)
+    lits = {"ints": lambda: rng.sample(ints, n), "strings": lambda: rng.sample(strs, n), "mixed": lambda: [lit() for _ in range(n)]}[shape]()
+    kw = {}
+    how = rng.choice(["const", "enum", "enum", "enum", "bounds"])
+    if how == "const":
+        kw["const"] = core.enc_val(lits[0])
+        lits = lits[:1]
+    elif how == "enum":
+        kw["enum"] = [core.enc_val(x) for x in lits]
+    else:
+        lo = rng.choice([0, 1])
+        kw["minimum"], kw["maximum"] = core.enc_num(lo), core.enc_num(lo + rng.choice([1, 2, 3]))
+        if rng.random() < 0.6:
+            kw["multipleOf"] = core.enc_val(1)
+        lits = [lo, lo + 1, lo + 0.5]
+    typed = rng.choice(["Element", "Element", "Element", "Element", "Integer", "Number", "String"])
+    sub = {"cls": typed, "kw": {k: v for k, v in kw.items() if typed != "String" or k in ("const", "enum")}}
+
+    def other(x):
+        if isinstance(x, bool):
+            return int(x)
+        if isinstance(x, int):
+            return float(x)
+        if isinstance(x, float) and x.is_integer():
+            return int(x)
+        return x
+    vals = list(lits) + [other(x) for x in lits] + [rng.choice([True, 7, 7.0, "zz", None, 1.5])]
+    where = rng.choice(["plain", "plain", "items", "union", "tuple"])
+    if where == "items":
+        sub = {"cls": "Array", "kw": {"itemsKind": "single"}, "items": [sub]}
+        vals = [[x] for x in vals] + [vals[:2] + vals[len(lits):len(lits) + 1], []]
+    elif where == "tuple":
+        sub = {"cls": "Array", "kw": {"itemsKind": "tuple"}, "items": [sub, {"cls": "String", "kw": {}}]}
+        vals = [[x, "s"] for x in vals] + [[]]
+    elif where == "union":
+        sub = {"cls": rng.choice(["AnyOf", "OneOf"]), "kw": {}, "elements": [sub, {"cls": rng.choice(["String", "Null", "Boolean"]), "kw": {}}]}
+        vals = vals + ["s", None]
+    return sub, vals, {"typed": typed != "Element", "how": how, "literals": shape, "where": where}
+
+
+def respell(rng, v, p=0.6):
+    """the same JSON value with some of its numbers (rng None: all of them) in the other spelling JSON allows (2 <-> 2.0);
+    (value, number of changes)"""
+    if isinstance(v, bool) or v is None or isinstance(v, str):
+        return v, 0
+    if isinstance(v, int):
+        if abs(v) < 2 ** 53 and (rng is None or rng.random() < p):
+            return float(v), 1
+        return v, 0
+    if isinstance(v, float):
+        if v.is_integer() and (rng is None or rng.random() < p):
+            return int(v), 1
+        return v, 0
+    if isinstance(v, list):
+        got = [respell(rng, x, p) for x in v]
+        return [g[0] for g in got], sum(g[1] for g in got)
+    if isinstance(v, dict):
+        got = {k: respell(rng, x, p) for k, x in v.items()}
+        return {k: g[0] for k, g in got.items()}, sum(g[1] for g in got.values())
+    return v, 0
+
+
+def with_respelled(rng, values, stats, limit):
+    """variants of up to `limit` of the (plain JSON) values in which numbers are written the other way JSON allows; rng None: the
+    first values that hold a number, every number respelled (draws nothing, for the families whose random stream is to stay as it was)"""
+    out = []
+    plain = [v for v in values if not has_refs(v)]
+    for v in (plain if rng is None else rng.sample(plain, min(len(plain), 2 * limit))):
+        w, n = respell(rng, v)
+        if n and w not in out:
+            out.append(w)
+        if len(out) >= limit:
+            break
+    stats["values-with-numbers-respelled"] = stats.get("values-with-numbers-respelled", 0) + len(out)
+    return out
+
+
 WHOLE_CLASS = {"pattern-overlap": pattern_overlap_family, "model-positions": model_positions_family}
 
 
@@ -772,7 +945,9 @@ def run(ctx, scale=1.0):
     out.rule = ("a model class with 1-3 properties (required / optional / defaulted) whose elements are DSL trees of depth <= 3 (typed leaves, arrays, tuple "
                 "items, classes, anyOf/oneOf/allOf/not), built from 8+ generated values each; families: random, tuple items of structurally equal distinct "
                 "classes, compositions of classes, parent-then-child and child-then-parent use of subclasses, classes whose patternProperties match declared "
-                "property names (outermost / under a property / under array items), same-shaped classes at every kind of class-typed position; for every "
+                "property names (outermost / under a property / under array items), same-shaped classes at every kind of class-typed position, a building "
+                "schema under 1-3 pass-through wrappers (negation chains, small compositions, arrays), const/enum/bounds-restricted un-typed and typed elements "
+                "fed their literals in both number spellings; for every family, variants of the values with numbers respelled (2 <-> 2.0); for every "
                 "family, variants of the values in which dicts at class-typed positions are already-built instances (of that class, an empty subclass, the "
                 "same declaration under another name or rebuilt, a wider class); a case is one attribute of one model instance reachable from a built model; "
                 "non-trivial = the annotation is not Any / Maybe[Any]; distinct by SHA-256")
@@ -781,8 +956,9 @@ def run(ctx, scale=1.0):
     try:
         dg, vg = dsl.DumpGen(rng), ValueGen(rng)
         n = int(N_TREES[ctx["tier"]] * scale)
-        for i in range(n):
-            fam = ["random", "random", "class-default", "twin-tuple", "composition", "random", "subclass", "allof", "random", "allof-unions", "tuple-defaults", "member-default",
+        later = int(N_LATER[ctx["tier"]] * scale)
+        for i in range(n + later):
+            fam = LATER[(i - n) % len(LATER)] if i >= n else ["random", "random", "class-default", "twin-tuple", "composition", "random", "subclass", "allof", "random", "allof-unions", "tuple-defaults", "member-default",
                    "pattern-overlap", "model-positions"][i % 14]
             stats["family-" + fam] = stats.get("family-" + fam, 0) + 1
             if fam == "subclass":
@@ -801,6 +977,7 @@ def run(ctx, scale=1.0):
                         if isinstance(getattr(c, "patternProperties", None), dict) and any(re.search(pt, pr.source or pn) for pt in c.patternProperties):
                             stats["declared-property-under-pattern"] = stats.get("declared-property-under-pattern", 0) + 1
                 values = values + with_models(rng, cls, values, stats, 0.6 if fam == "model-positions" else 0.3, 8 if fam == "model-positions" else 3)
+                values = values + with_respelled(None, values, stats, 2)
                 check_class(drv, cls, class_dump, values, out, stats, f"{fam}-{i}")
                 continue
             props, val_lists = [], {}
@@ -820,6 +997,10 @@ def run(ctx, scale=1.0):
                     sub, vals = tuple_defaults_family(rng)
                 elif fam == "member-default":
                     sub, vals = member_default_family(rng)
+                elif fam in ("wrapped-core", "value-restricted"):
+                    sub, vals, info = (wrapped_core_family if fam == "wrapped-core" else value_restricted_family)(rng)
+                    for ik, iv in info.items():
+                        stats[f"{fam}-{ik}-{iv}"] = stats.get(f"{fam}-{ik}-{iv}", 0) + 1
                 else:
                     sub = dg.dump(3)
                     try:
@@ -851,7 +1032,11 @@ def run(ctx, scale=1.0):
                         v[pn] = rng.choice(val_lists[pn])
                 values.append(v)
             values += with_models(rng, cls, values, stats, 0.5, 3)
+            values += with_respelled(rng if fam in LATER else None, values, stats, 4 if fam in LATER else 2)
+            before = stats.get("accepted", 0)
             check_class(drv, cls, class_dump, values, out, stats, f"{fam}-{i}")
+            if fam in LATER:
+                stats[fam + "-values-accepted"] = stats.get(fam + "-values-accepted", 0) + stats.get("accepted", 0) - before
     finally:
         drv.close()
     if stats.get("c05-pattern-overlap-default-lost"):
